@@ -189,6 +189,30 @@ func (C16) Gen(r *core.Rng, tier string, emit func(string)) {
 		}
 		emit(fillLine(zoom, randRegion(r, zoom)))
 	}
+	// regions that touch the boundary of the Web-Mercator world (tile-edge-aligned, so their edges run ALONG it):
+	// the four corners, the four sides, the whole world — the tile cover of such an edge may step off the grid
+	for zoom := 2; zoom <= 8; zoom++ {
+		nt := 1 << uint(zoom)
+		k := 1 + r.Intn(nt-1)
+		m := 1 + r.Intn(nt-1)
+		W, E, N, S := tileLon(0, zoom), tileLon(nt, zoom), tileLat(0, zoom), tileLat(nt, zoom)
+		for _, b := range [][4]float64{
+			{W, tileLat(m, zoom), tileLon(k, zoom), N},                   // north-west corner
+			{tileLon(nt-k, zoom), tileLat(m, zoom), E, N},                // north-east corner
+			{W, S, tileLon(k, zoom), tileLat(nt-m, zoom)},                // south-west corner
+			{tileLon(nt-k, zoom), S, E, tileLat(nt-m, zoom)},             // south-east corner
+			{W, tileLat(nt-1, zoom), tileLon(k, zoom), tileLat(1, zoom)}, // west side
+			{tileLon(1, zoom), tileLat(m, zoom), tileLon(nt-1, zoom), N}, // north side
+			{W, S, E, N}, // the whole world
+		} {
+			ring := rectRing(b[0], b[1], b[2], b[3])
+			emit(fillLine(zoom, orb.MultiPolygon{{ring}}))
+			// the other orientation, starting at another corner (the order `--bbox` builds its ring in differs
+			// from the order a GeoJSON author uses): the cover of an edge depends on its direction
+			rev := orb.Ring{ring[2], ring[1], ring[0], ring[3], ring[2]}
+			emit(fillLine(zoom, orb.MultiPolygon{{rev}}))
+		}
+	}
 	for i := 0; i < nGen; i++ {
 		z := 1 + r.Intn(12)
 		n := r.Intn(12)
